@@ -101,6 +101,20 @@ def Sem.opaque (isStatic : Bool) : Sem :=
   { collect := false, static := isStatic, needsTrace := false, trace := fun _ => [],
     check := fun v => match v with | .opaque _ => true | _ => false }
 
+/-- `&'lt T` (also `&'lt mut T`).  The only provided impl is `unsafe impl<'gc, T: ?Sized + 'static>
+Collect<'gc> for &'static T` with `NEEDS_TRACE = false` and the default (empty) `trace`: a reference
+is `Collect` iff its lifetime is `'static` and its referent type is `'static` (the referent need
+NOT be `Collect`), it is `'static` under the same condition, and it is never traced.  A value of a
+reference type is modelled like an opaque value (`held` = the arena pointers reachable through it);
+a `'static` reference is `'static`, hence pointer-free — the same assumption as for `Sem.leaf`.
+`&'gc T` / `&'a T` (what `Gc::as_ref` returns) is NOT `Collect`. -/
+def Sem.ref (staticLt : Bool) (t : Sem) : Sem :=
+  { collect := staticLt && t.static, static := staticLt && t.static, needsTrace := false,
+    trace := fun _ => [],
+    check := fun v => match v with
+      | .opaque held => !(staticLt && t.static) || held.isEmpty
+      | _ => false }
+
 instance : Inhabited Sem := ⟨Sem.opaque false⟩
 
 /-- Provided containers, by the shape of what they store. -/
@@ -199,6 +213,7 @@ inductive Ty where
   | weak                                  -- `GcWeak<'gc, _>`: any pointee, including `Self`
   | opaque (isStatic : Bool)              -- no `Collect` impl
   | param (i : Nat)                       -- the i-th type parameter of the enclosing declaration
+  | ref (staticLt : Bool) (t : Ty)        -- `&'static T` (true) / `&'gc T`, `&'a T`, `&'gc mut T` (false)
   | con (c : Con) (args : List Ty)        -- provided container applied to arguments
   | adt (d : Decl) (args : List Ty)       -- derived ADT applied to type arguments
 /-- A field (binding): its `#[collect(..)]` attributes and its type. -/
@@ -487,6 +502,7 @@ mutual
 bodies of nested declarations, whose parameters are their own). -/
 def Ty.mentionsParam (i : Nat) : Ty → Bool
   | .param j => i == j
+  | .ref _ t => Ty.mentionsParam i t
   | .con _ args => Ty.anyMentionsParam i args
   | .adt _ args => Ty.anyMentionsParam i args
   | _ => false
@@ -521,6 +537,7 @@ def Ty.sem (ρ : List Sem) : Ty → Sem
   | .weak => Sem.weak
   | .opaque s => Sem.opaque s
   | .param i => ρ.getD i default
+  | .ref st t => Sem.ref st (Ty.sem ρ t)
   | .con c args => Sem.con c (Ty.sems ρ args)
   | .adt d args =>
       derivedSem (Ty.sems ρ args) (Decl.resolve (defEnv d) d)
